@@ -17,6 +17,9 @@ let props : (string * prop) list = [
   "C17", { tag = "c17"; check = P_c17.check; cross_header = P_c17.cross_header;
            cross_footer = P_c17.cross_footer; nontrivial = P_c17.nontrivial };
   "SESS", sess_prop P_sess.check P_sess.nontrivial;
+  "C02", sess_prop P_sess.check_C02 P_sess.nontrivial;
+  "C02", { tag = "wops"; check = P_c02.check_wops; cross_header = ""; cross_footer = ""; nontrivial = P_c02.nontrivial_wops };
+  "C15", sess_prop P_sess.check_C15 P_sess.nontrivial;
   "C05", sess_prop P_sess.check_C05 P_sess.nontrivial;
   "C06", sess_prop P_sess.check_C06 P_sess.nontrivial;
   "C01", sess_prop P_sess.check_C01 P_sess.nontrivial;
@@ -33,7 +36,8 @@ let props : (string * prop) list = [
 let () =
   let pname = Sys.argv.(1) and obs = Sys.argv.(2) and resf = Sys.argv.(3)
   and crossf = Sys.argv.(4) and nsample = int_of_string Sys.argv.(5) in
-  let p = List.assoc pname props in
+  let ps = List.filter (fun (n, _) -> n = pname) props in
+  let p = snd (List.hd ps) in
   let ic = open_in obs in
   let oc = open_out resf in
   let total = ref 0 and ok = ref 0 and ofail = ref 0 and diff = ref 0 in
@@ -44,7 +48,8 @@ let () =
     if String.length line > 0 then
     match parse_sexp line with
     | L (A "stat" :: A k :: A v :: _) -> Printf.fprintf oc "STAT %s %s\n" k v
-    | L (A t :: A id :: A cls :: fields) when t = p.tag ->
+    | L (A t :: A id :: A cls :: fields) when List.exists (fun (_, q) -> q.tag = t) ps ->
+        let p = snd (List.find (fun (_, q) -> q.tag = t) ps) in
         incr total;
         (match p.nontrivial fields with
          | Some key -> Hashtbl.replace seen key ()
